@@ -119,7 +119,8 @@ fn yield_point(site: &str) {
             open.insert(me.clone(), p - 1);
             break;
         }
-        open = g.cv.wait(open).unwrap();
+        // time-limited wait: the controller may disable the gate between our check and the wait
+        open = g.cv.wait_timeout(open, std::time::Duration::from_millis(20)).unwrap().0;
     }
     drop(open);
     g.waiting.lock().unwrap().remove(&me);
@@ -151,10 +152,14 @@ fn probe_cb(site: &'static str, seq: u64) {
 }
 
 fn marker_fn(id: &str) -> Arc<dyn Fn(Vec<Value>) -> expression_engine::Result<Value> + Send + Sync> {
+    marker_fn_ret(id, None)
+}
+
+fn marker_fn_ret(id: &str, ret: Option<Value>) -> Arc<dyn Fn(Vec<Value>) -> expression_engine::Result<Value> + Send + Sync> {
     let id = id.to_string();
     Arc::new(move |_| {
         handler_entry(&id);
-        Ok(Value::String(id.clone()))
+        Ok(ret.clone().unwrap_or(Value::String(id.clone())))
     })
 }
 
@@ -189,7 +194,7 @@ fn do_call(c: &J, idx: usize) {
         "reg" => {
             let id = c["val"].as_str().unwrap().to_string();
             let outcome = guarded(std::panic::AssertUnwindSafe(|| match r {
-                "func" => expression_engine::register_function(name, marker_fn(&id)),
+                "func" => expression_engine::register_function(name, marker_fn_ret(&id, c.get("ret").and_then(json_to_value))),
                 "prefix" => {
                     let i2 = id.clone();
                     expression_engine::register_prefix_op(name, Arc::new(move |_| {
@@ -222,7 +227,7 @@ fn do_call(c: &J, idx: usize) {
             if outcome.is_err() { "panic".into() } else { "ok".into() }
         }
         "exec" | "parse" | "text" => {
-            let (text, _, _) = if op == "text" { (c["text"].as_str().unwrap().to_string(), None, None) } else { probe_program(r, name) };
+            let (text, _, _) = if c.get("text").is_some() { (c["text"].as_str().unwrap().to_string(), None, None) } else { probe_program(r, name) };
             let mut ctx = Context::new();
             if let Some(o) = c.get("ctx").and_then(|x| x.as_object()) {
                 for (k, e) in o {
@@ -248,6 +253,16 @@ fn do_call(c: &J, idx: usize) {
                         Err(_) => "panic".into(),
                         Ok(Ok(v)) => format!("value:{}", value_to_json(v)),
                         Ok(Err(_)) => "err".into(),
+                    }
+                } else if let Some(classes) = c.get("classes").and_then(|x| x.as_object()) {
+                    // an explicit program whose result tells which handler of (r, name) produced it
+                    match &out {
+                        Err(_) => "panic".into(),
+                        Ok(Err(_)) => classes.iter().find(|(_, v)| v.is_string() && v.as_str() == Some("err")).map(|(k, _)| k.clone()).unwrap_or("other:err".into()),
+                        Ok(Ok(v)) => {
+                            let vj = value_to_json(v);
+                            classes.iter().find(|(_, want)| want.is_array() && veq(want, &vj)).map(|(k, _)| k.clone()).unwrap_or(format!("other:{}", vj))
+                        }
                     }
                 } else {
                     classify(r, name, &out)
@@ -338,7 +353,10 @@ pub fn run(args: &[String]) {
             }
         }
         // schedule exhausted: everything runs free
-        g.enabled.store(false, Ordering::SeqCst);
+        {
+            let _held = g.open.lock().unwrap();
+            g.enabled.store(false, Ordering::SeqCst);
+        }
         g.cv.notify_all();
     }
     let t0 = std::time::Instant::now();
